@@ -197,3 +197,34 @@ Proof.
     - destruct pit; [|destruct Hq]. destruct Hq as [<-|[]]. cbn [length]. lia. }
   apply G. cbn [snd]. intros q [].
 Qed.
+
+(* ---------- per-cell vectorisation and feature properties ---------- *)
+(* one two-vertex feature [i; downstream of i] per cell of the network inside the mask, in cell order, nothing else *)
+Theorem flwdir_tuples_spec nxt mask :
+  flwdir_tuples nxt mask =
+  map (fun i => [i; nth i nxt (length nxt)])
+      (filter (fun i => (nth i nxt (length nxt) <? length nxt)%nat && mget mask i) (seq 0 (length nxt))).
+Proof.
+  unfold flwdir_tuples. induction (seq 0 (length nxt)) as [|i l IH]; cbn [flat_map filter map]; [reflexivity|].
+  destruct ((nth i nxt (length nxt) <? length nxt)%nat && mget mask i); cbn [map app]; rewrite IH; reflexivity.
+Qed.
+
+Corollary flwdir_tuples_mem nxt mask p : In p (flwdir_tuples nxt mask) <->
+  exists i, (i < length nxt)%nat /\ (nth i nxt (length nxt) < length nxt)%nat /\ mget mask i = true /\ p = [i; nth i nxt (length nxt)].
+Proof.
+  rewrite flwdir_tuples_spec, in_map_iff. split.
+  - intros [i [<- Hi]]. apply filter_In in Hi. destruct Hi as [Hs Hc]. apply in_seq in Hs. apply andb_true_iff in Hc.
+    destruct Hc as [H1 H2]. apply Nat.ltb_lt in H1. exists i. repeat split; auto; lia.
+  - intros [i (H1 & H2 & H3 & ->)]. exists i. split; [reflexivity|]. apply filter_In. split; [apply in_seq; lia|].
+    apply andb_true_iff. split; [apply Nat.ltb_lt; exact H2|exact H3].
+Qed.
+
+(* the properties of a feature: its first vertex, its last vertex, and whether it is the zero-length feature of a pit *)
+Theorem feature_props_spec paths : feature_props paths =
+  map (fun p => (hd 0%nat p, last p (hd 0%nat p), (last p (hd 0%nat p) =? last (removelast p) (hd 0%nat p))%nat))
+      (filter (fun p => (2 <=? length p)%nat) paths).
+Proof.
+  unfold feature_props. induction paths as [|p l IH]; cbn [flat_map filter map]; [reflexivity|].
+  destruct p as [|a [|b t]]; cbn [length Nat.leb]; [exact IH|exact IH|].
+  cbn [map app hd]. rewrite IH. reflexivity.
+Qed.
